@@ -695,6 +695,113 @@ def run_self_compare_identity(chk, spec):
 
 RUNNERS.update({"self_compare_identity": run_self_compare_identity})
 
+def run_row_as_mask_after_write(chk, spec):
+	"""a row of booleans kept from a table is a boolean vector of ITS cells: after another row of the table received a None (or a column was promoted), the
+	kept row still works as a mask and its slices keep its kind"""
+	nc = spec["nc"]
+	t = Table({f"c{j}": [(j + 0) % 2 == 0, (j + 1) % 3 == 0, True] for j in range(nc)})
+	r = t[0]
+	cells = [(j + 0) % 2 == 0 for j in range(nc)]
+	if spec["read_first"]:
+		call(lambda: r[0:1])
+	w = call({"none-other-row": lambda: t.__setitem__((1, "c0"), None), "none-view": lambda: t["c0"].__setitem__(2, None), "none-row": lambda: t.__setitem__(2, [None] * nc), "nothing": lambda: None}[spec["write"]])
+	v = Vector(list(range(10, 10 + nc)))
+	o = call(lambda: v[r])
+	chk.judged("mask", ("row-as-mask-after-write", nc, spec["write"], spec["read_first"]))
+	exp = [x for x, m in zip(range(10, 10 + nc), cells) if m]
+	if not o.ok:
+		chk.fail("v[mask] keeps exactly the positions where the mask is True", f"mask/raises/kept-bool-row/{spec['write']}/{type(o.exc).__name__}", f"{spec!r}: the row {cells!r} obtained before the write is refused as a mask: {o!r}")
+		return
+	if list(o.value) != exp:
+		chk.fail("v[mask] keeps exactly the positions where the mask is True", f"mask/wrong-elements/kept-bool-row/{spec['write']}", f"{spec!r}: {list(o.value)!r} vs {exp!r}")
+		return
+	s1 = call(lambda: r[0:nc].schema())
+	if s1.ok and s1.value is not None and (s1.value.kind is not bool or s1.value.nullable):
+		chk.fail("v[slice] keeps the dtype kind", f"slice/kept-row-dtype-follows-later-writes/{spec['write']}", f"{spec!r}: the slice of the kept row {cells!r} reports {s1.value!r}")
+
+
+def run_inplace_logical(chk, spec):
+	"""m &= c, m |= c, m ^= c: logical operators RETURN a new non-nullable boolean vector - the object the name was bound to before (a table column, a mask
+	someone else holds) is left as it was"""
+	import operator
+	a = list(spec["a"])
+	b = list(spec["b"])
+	if spec["holder"] == "table-column":
+		t = Table({"flag": list(a), "x": list(range(len(a)))})
+		m = t["flag"]
+	else:
+		t = None
+		m = Vector(list(a))
+	alias = m
+	before = (list(alias._underlying), alias.schema().kind, alias.schema().nullable)
+	other = Vector(list(b)) if spec["other"] == "vector" else list(b)
+	iop = {"and": operator.iand, "or": operator.ior, "xor": operator.ixor}[spec["opname"]]
+	op = {"and": operator.and_, "or": operator.or_, "xor": operator.xor}[spec["opname"]]
+	exp = call(lambda: list(op(Vector(list(a)), Vector(list(b)) if spec["other"] == "vector" else list(b))._underlying))
+	o = call(lambda: iop(m, other))
+	chk.judged("compare", ("inplace-logical", spec["opname"], spec["holder"], spec["other"], any(x is None for x in a)))
+	if not o.ok or not exp.ok:
+		return
+	after = (list(alias._underlying), alias.schema().kind, alias.schema().nullable)
+	if after != before:
+		chk.fail("logical operators return a new vector (their operands are left as they were)", f"compare/inplace-logical-rewrites-operand/{spec['opname']}/{spec['holder']}", f"{spec!r}: the vector the name was bound to changed {before!r} -> {after!r}")
+		return
+	r = o.value
+	if list(r._underlying) != exp.value:
+		chk.fail("comparison and logical operators are computed elementwise", f"compare/inplace-logical-value/{spec['opname']}", f"{spec!r}: {list(r._underlying)!r} vs {exp.value!r}")
+		return
+	sch = r.schema()
+	if sch is not None and (sch.kind is not bool or sch.nullable):
+		chk.fail("logical operators return non-nullable boolean vectors", f"compare/inplace-logical-schema/{spec['opname']}", f"{spec!r}: {sch!r}")
+
+
+def run_date_vs_text(chk, spec):
+	"""a date vector compared with ISO strings: a position where the date side is None is never compared - whatever text stands opposite - and is False"""
+	from datetime import date
+	import operator
+	D = [date(2020, 1, 1), date(2021, 6, 15), date(1999, 12, 31)]
+	dates = [None if m else D[i % 3] for i, m in enumerate(spec["none_at"])]
+	texts = spec["texts"]
+	v = Vector(list(dates)) if any(x is not None for x in dates) else Vector([D[0]] + list(dates))[1:]
+	op = getattr(operator, spec["opname"])
+	other = (Vector(list(texts)) if spec["form"] == "vector" else list(texts)) if isinstance(texts, list) else texts
+	o = call(lambda: op(v, other))
+	chk.judged("compare", ("date-vs-text", spec["opname"], spec["form"], tuple(spec["none_at"])))
+	def parse(s_):
+		return date.fromisoformat(s_)
+	try:
+		exp = [False if d is None or (isinstance(texts, list) and texts[i] is None) else bool(op(d, parse(texts[i] if isinstance(texts, list) else texts))) for i, d in enumerate(dates)]
+	except Exception:
+		return      # some text opposite a real date is not ISO: not constrained
+	if not o.ok:
+		chk.fail("comparison returns a non-nullable boolean vector, False wherever an operand is None", f"compare/raises/date-vs-text/{spec['opname']}/{type(o.exc).__name__}", f"{spec!r}: dates {dates!r} vs {texts!r}: {o!r}; expected {exp!r}")
+		return
+	if list(o.value._underlying) != exp:
+		chk.fail("comparison is computed elementwise (False at None)", f"compare/value/date-vs-text/{spec['opname']}", f"{spec!r}: {list(o.value._underlying)!r} vs {exp!r}")
+
+
+RUNNERS.update({"row_as_mask_after_write": run_row_as_mask_after_write, "inplace_logical": run_inplace_logical, "date_vs_text": run_date_vs_text})
+
+def run_accessor_lookalike(chk, spec):
+	import warnings
+	names = spec["names"]
+	with warnings.catch_warnings():
+		warnings.simplefilter("ignore")
+		t = Table([Vector([100 * j, 100 * j + 1], name=nm) if nm is not None else Vector([100 * j, 100 * j + 1]) for j, nm in enumerate(names)])
+		ask = spec["ask"]
+		o = call({"single": lambda: t[ask], "tuple": lambda: t[(ask,)], "tuple-with-other": lambda: t[(ask, "c")] if "c" in names else t[(ask, ask)], "two-axis": lambda: t[0:2, (ask,)]}[spec["form"]])
+	chk.judged("table-missing", ("accessor-lookalike", tuple(map(str, names)), spec["form"]))
+	if not o.ok:
+		chk.fail("a column selected by its stored name is that column", f"table-select/lookalike-raises/{spec['form']}/{type(o.exc).__name__}", f"{spec!r}: {o!r}")
+		return
+	col = o.value.cols()[0] if isinstance(o.value, Table) else o.value
+	got = col._underlying[0] // 100
+	if got != spec["want"]:
+		chk.fail("a column selected by its stored name is that column (the stored name wins over the positional accessor of another column)", f"table-select/lookalike-wrong-column/{spec['form']}", f"{spec!r}: t[{ask!r}] ({spec['form']}) is column {got}, the column named {ask!r} is column {spec['want']}")
+
+
+RUNNERS.update({"accessor_lookalike": run_accessor_lookalike})
+
 
 def run(chk):
 	recompute.add_cases(chk, "C07")
@@ -863,6 +970,25 @@ def run(chk):
 			for n in (1, 2, 4):
 				for all_ in (True, False):
 					chk.case("self_compare_identity", {"target": target, "opname": opname, "n": n, "all": all_}, "self-compare-identity")
+	for nc in (2, 3, 5):
+		for write in ("none-other-row", "none-view", "none-row", "nothing"):
+			for read_first in (False, True):
+				chk.case("row_as_mask_after_write", {"nc": nc, "write": write, "read_first": read_first}, "row-as-mask")
+	for opname in ("and", "or", "xor"):
+		for holder in ("vector", "table-column"):
+			for other in ("vector", "list"):
+				for a, b in (([True, False, True], [True, True, False]), ([True, None, False], [True, True, True]), ([False, False], [True, False])):
+					chk.case("inplace_logical", {"opname": opname, "holder": holder, "other": other, "a": a, "b": b}, "inplace-logical")
+	for opname in ("eq", "ne", "lt", "ge"):
+		for form in ("vector",):      # (the ISO reading applies to a str VECTOR or a str scalar; a plain list of strings is compared as Python compares date with str)
+			for none_at, texts in (([False, True, False], ["2020-01-01", "n/a", "1999-12-31"]), ([True, True], ["", "not a date"]), ([False, True, True], ["2020-01-02", "n/a", None]), ([False, False], ["2020-01-01", "2021-06-15"])):
+				chk.case("date_vs_text", {"opname": opname, "form": form, "none_at": none_at, "texts": texts}, "date-vs-text")
+		for none_at in ([True, True], [True], []):
+			chk.case("date_vs_text", {"opname": opname, "form": "scalar", "none_at": none_at, "texts": "n/a"}, "date-vs-text")
+	# a stored name spelled like the positional accessor of a column to its LEFT: the stored name wins, in every lookup form
+	for names, ask, want in (([None, "col0_", "c"], "col0_", 1), (["x", "x__0", "c"], "x__0", 1), (["x", "y", "x__1"], "x__1", 2), ([None, None, "col1_"], "col1_", 2)):
+		for form in ("single", "tuple", "tuple-with-other", "two-axis"):
+			chk.case("accessor_lookalike", {"names": names, "ask": ask, "want": want, "form": form}, "accessor-lookalike")
 	near = {"names": ["amt", "amt", "a b", "c"], "cols": [[1, 2], [3, 4], [5, 6], [7, 8]]}
 	for missing in ("amt__01", "amt__\u0661", "a b__2", "amt__2", "amt__3", "amt__-1", "amt__1 ", " amt__1", "a-b__2", "a_b__02", "amt__1__1", "amt___1", "col0_", "col_0", "c__03", "amt__+1", "amt__1.0"):
 		chk.case("table_missing", {"table": near, "cols": [missing], "single": True, "pos": "first"}, "table-missing-near-accessor")
